@@ -139,6 +139,8 @@ func c18Gen(tier string, seed int64) []fw.Case {
 			for _, after := range []int{0, 3} {
 				add(c18Desc{Kind: "eof", Role: role, Code: code, Writes: make([]int, after)}, fmt.Sprintf("eof/%s/%d/after-%d-msgs", role, code, after))
 				add(c18Desc{Kind: "eof-libpair", Role: role, Code: code, Writes: make([]int, after)}, fmt.Sprintf("eof-libpair/%s/%d/after-%d-msgs", role, code, after))
+				// the peer is gone the moment it has sent its Close frame (the echo cannot be delivered)
+				add(c18Desc{Kind: "eof-vanish", Role: role, Code: code, Writes: make([]int, after)}, fmt.Sprintf("eof-vanish/%s/%d/after-%d-msgs", role, code, after))
 			}
 		}
 		for _, text := range []bool{false, true} {
@@ -201,7 +203,7 @@ func c18Run(r *fw.R, d c18Desc) {
 		c18StreamPair(r, d)
 	case "stream-raw":
 		c18StreamRaw(r, d)
-	case "eof", "eof-libpair":
+	case "eof", "eof-libpair", "eof-vanish":
 		c18EOF(r, d)
 	case "wrong-type":
 		c18WrongType(r, d)
@@ -470,6 +472,9 @@ func c18EOF(r *fw.R, d c18Desc) {
 			pay = wire.ClosePayload(d.Code, "done")
 		}
 		peer.Send(wire.Close(pay))
+		if d.Kind == "eof-vanish" {
+			peerEnd.Close()
+		}
 	}
 	want := 3 * len(d.Writes)
 	got := 0
